@@ -29,13 +29,23 @@ FAMILIES = [
     ("annotated_json_predef", "style='annotated', fmt='json', predef=True"),
     ("annotated_plain_predef", "style='annotated', mixin=False, predef=True"),
     ("codec_predef", "style='codec', predef=True"), ("config_predef", "style='config', predef=True"),
+    # calls that pass a dialect (every other call / every call) to classes with ADD_DIALECT_SUPPORT, plain variants included
+    ("annotated_plain_dialect", "style='annotated', mixin=False, dialect='alt'"), ("config_dialect", "style='config', dialect='alt'"),
+    # a second discriminated field with ANOTHER tagger function, declared first in the same holder
+    ("annotated_two_taggers", "style='annotated', tagger=True, two=True"),
+    # Config discriminator on a plain root, holder typed with the bare root; calls alternating from_dict / from_json
+    ("nested_plain_cross", "style='nested', mixin=False, cross=True"), ("annotated_plain_cross", "style='annotated', mixin=False, cross=True"),
+]
+THOROUGH_ONLY = [
+    ("annotated_dialect", "style='annotated', dialect='always'"), ("nested_plain", "style='nested', mixin=False"),
+    ("codec_dialect", "style='codec', dialect='always'"), ("nested_json", "style='nested', fmt='json'"),
 ]
 
 
 def harnesses(tier, seed):
     hs = []
     k = 3 if tier == "quick" else 4
-    for name, kw in FAMILIES:
+    for name, kw in FAMILIES + (THOROUGH_ONLY if tier != "quick" else []):
         kws = "k=%d, %s" % (k, kw)
         hs.append(gen.custom_harness("C12", "c12", Schema("hist_" + name, "int", ""), "hist", "k=%d" % k, kws))
     for name, kw in (("config", "style='config'"), ("config_tagger", "style='config', tagger=True")):
@@ -53,7 +63,7 @@ def run(tier, seed):
     hs = harnesses(tier, seed)
     return runner.run_property(
         "C12", hs, tier, seed, 240 if tier == "quick" else 900,
-        bounds={"history_events": 3 if tier == "quick" else 4, "classes": 4, "tags": 5, "families": len(FAMILIES)},
+        bounds={"history_events": 3 if tier == "quick" else 4, "classes": 4, "tags": 5, "families": len(FAMILIES) + (len(THOROUGH_ONLY) if tier != "quick" else 0)},
         assumptions=ASSUMPTIONS,
         functions_note=["generated subtype/discriminated-union unpackers (variant map lookup, refill on miss, retry)",
                         "generated from_dict of Base/A/B/C and of the holder; codec decode"])
